@@ -2,6 +2,7 @@
 From Coq Require Import List Bool String ZArith.
 Import ListNotations.
 Require GenProofs_FrameMeas.
+Require Pauli Sem Refine Run FrameRun RevTrack FrameProg RevProg.
 Require Import Stab Act Spec SpecProofs GF2 Gen_GateTable Gen_Frame GenProofs_Frame.
 
 (* In the specification a DETECTOR appends, and an OBSERVABLE_INCLUDE accumulates, the XOR form of the named record entries
@@ -37,3 +38,15 @@ Example C04_nonvacuous :
   let r := srun 2 0 [SMeas [(0, (true, false))] false; SMeas [(0, (true, false))] false; SDetector [1; 2]] in
   dets r = [fzero] /\ List.length (recs r) = 2.
 Proof. vm_compute. split; reflexivity. Qed.
+
+(* Detection events on whole adaptive programs: a shot's detector value is the reference value xor the anticommuting faults
+   (RevProg.detector_in_every_shot) - the identity behind converting measurements to detection events with a reference sample. *)
+Theorem C04_detection_event_is_reference_xor_anticommuting_faults :
+  forall (n : nat) (extr exta : nat -> bool) (prog : list FrameProg.pop) (l la : list (Run.op * option bool))
+         (s s' : (Pauli.pauli -> Pauli.pauli) * (Pauli.pauli -> Pauli.pauli)) (Sg S' : Sem.state) (d : list bool),
+  Forall (FrameProg.okp n) prog -> Run.good n (fst s) (snd s) -> Run.Inv n (fst s) Sg ->
+  FrameProg.realize extr [] prog l -> Run.sim_run n s l s' -> FrameProg.realize exta [] prog la -> Run.sem_run Sg la S' ->
+  RevProg.gauge_okp n prog d -> (forall g, Refine.wf n g -> Sg g -> Sem.acom g (fst (RevProg.bt n prog d)) = false) ->
+  RevTrack.par_rec la d = xorb (RevTrack.par_rec l d) (RevProg.ext_par n extr exta prog d).
+Proof. exact RevProg.detector_in_every_shot. Qed.
+Print Assumptions C04_detection_event_is_reference_xor_anticommuting_faults.
